@@ -13,7 +13,7 @@ Operations
   br.flat <forceMultiline> <insideMacro> <condMulti> <e>     -> `<extend>;<e>`          `flatten_arm_body`
   br.canflat <e>                                              -> 0|1                     `can_flatten_block_around_this`
   br.canbe <insideMacro> <e>                                  -> 0|1                     `block_can_be_flattened`
-  br.ovh <e>                                                  -> number                  the width kept behind the pattern
+  br.ovh <forceMultiline> <insideMacro> <e> | br.ovh.pinned <e> -> number                the width kept behind the pattern
   br.arm[.pinned] <cfg: 8 bits> <ctx: 3 bits> <shapeOk> <condMulti> <orig e|o###> <next> <prefer> <e>
         -> err | `<s|n|b> <comma> <e>`     `rewrite_match_body`: branch, comma, the printed body (empty statements dropped)
         cfg = matchArmBlocks forceMultilineBlocks style2024 trailingSemicolon isMacroDef insideMacro
@@ -275,7 +275,12 @@ def handle (op : String) (args : List String) : Option String :=
       let im ← decB im
       let e ← decExpr e
       pure (encB (canBeFlattened im e))).getD "?"
-  | "br.ovh", [e] => some <| (do
+  | "br.ovh", [fmb, im, e] => some <| (do
+      let fmb ← decB fmb
+      let im ← decB im
+      let e ← decExpr e
+      pure (toString (patOverhead fmb im e))).getD "?"
+  | "br.ovh.pinned", [e] => some <| (do
       let e ← decExpr e
       pure (toString (patShapeOverhead e))).getD "?"
   | "br.arm", args => some <| (armOp wrapComma args).getD "?"
